@@ -85,6 +85,27 @@ _BIN = {ast.Pow: lambda a, b: a ** b, ast.Add: lambda a, b: a + b, ast.Sub: lamb
         ast.BitAnd: lambda a, b: a & b, ast.BitOr: lambda a, b: a | b, ast.LShift: lambda a, b: a << b, ast.RShift: lambda a, b: a >> b, ast.BitXor: lambda a, b: a ^ b}
 
 
+_ONLY_CMP = {}
+
+
+def _only_compared(tree, name):
+    """Is the module-level constant `name` used only as an operand of comparisons (a threshold), never in arithmetic, indexing or calls?"""
+    k = (id(tree), name)
+    if k not in _ONLY_CMP:
+        ok, uses = True, 0
+        parents = {}
+        for n in ast.walk(tree):
+            for ch in ast.iter_child_nodes(n):
+                parents[id(ch)] = n
+        for n in ast.walk(tree):
+            if isinstance(n, ast.Name) and n.id == name and isinstance(n.ctx, ast.Load):
+                uses += 1
+                if not isinstance(parents.get(id(n)), ast.Compare):
+                    ok = False
+        _ONLY_CMP[k] = ok and uses > 0
+    return _ONLY_CMP[k]
+
+
 class VecEval:
     def __init__(self, P, func, env, n_self):
         self.P, self.func, self.env, self.n = P, func, dict(env), n_self
@@ -240,9 +261,18 @@ class VecEval:
             for a in self.func.mod.tree.body:
                 if isinstance(a, ast.Assign) and len(a.targets) == 1 and isinstance(a.targets[0], ast.Name) and a.targets[0].id == e.id and isinstance(a.value, ast.Constant) \
                         and isinstance(a.value.value, (int, float)):
-                    return a.value.value
+                    v_ = a.value.value
+                    if getattr(self, 'scale_thresholds', False) and isinstance(v_, int) and not isinstance(v_, bool) and v_ > 2 and _only_compared(self.func.mod.tree, e.id):
+                        return 2          # a size threshold of a fast path (only ever compared): scaled down so that the small scope reaches the fast path
+                    return v_
                 if isinstance(a, ast.Assign) and len(a.targets) == 1 and isinstance(a.targets[0], ast.Name) and a.targets[0].id == e.id and ast.unparse(a.value) in EXTERNAL_CONSTANTS:
                     return EXTERNAL_CONSTANTS[ast.unparse(a.value)]
+                if isinstance(a, ast.Assign) and len(a.targets) == 1 and isinstance(a.targets[0], ast.Name) and a.targets[0].id == e.id and isinstance(a.value, ast.BinOp) \
+                        and all(isinstance(x, (ast.Constant, ast.BinOp, ast.operator)) for x in ast.walk(a.value)):
+                    v_ = eval(compile(ast.Expression(a.value), '<const>', 'eval'), {'__builtins__': {}})        # literal arithmetic only (1 << 16, 8 * 1024)
+                    if getattr(self, 'scale_thresholds', False) and isinstance(v_, int) and v_ > 2 and _only_compared(self.func.mod.tree, e.id):
+                        return 2
+                    return v_
             raise Unsupported(f'name {e.id}')
         if isinstance(e, ast.Tuple):
             return tuple(self.expr(x) for x in e.elts)
@@ -365,6 +395,8 @@ class VecEval:
                 i = self.expr(e.slice)
                 if isinstance(i, tuple) and len(i) == 2 and isinstance(base, list) and (not base or isinstance(base[0], list)):
                     r_, c_ = i
+                    if isinstance(r_, list) and all(isinstance(x, int) and not isinstance(x, bool) for x in r_) and isinstance(c_, slice):
+                        return [list(base[x][c_]) for x in r_]
                     rows = base[r_] if isinstance(r_, slice) else [base[r_]] if isinstance(r_, int) else None
                     if rows is None:
                         raise Unsupported('2-d row index')
@@ -484,6 +516,8 @@ class VecEval:
                 if 'self' in self.env:
                     sub.env['self'] = self.env['self']
                 sub.ncols = getattr(self, 'ncols', None)
+                sub.scale_thresholds = getattr(self, 'scale_thresholds', False)
+                sub.inline_take = getattr(self, 'inline_take', False)
                 try:
                     sub.block(h.node.body)
                 except Returned as ret:
@@ -506,6 +540,7 @@ class VecEval:
                     if isinstance(env[p_], list):
                         env[p_] = list(env[p_])
                 sub = VecEval(self.P, h, env, self.n)
+                sub.scale_thresholds = getattr(self, 'scale_thresholds', False)
                 try:
                     sub.block(h.node.body)
                 except Returned as ret:
@@ -650,6 +685,8 @@ class VecEval:
         if fn in ('len',) and isinstance(args[0], (list, tuple)):
             return len(args[0])
         if fn in ('int', 'np.intp', 'np.int64', 'bool', 'abs') and len(args) == 1 and not isinstance(args[0], list):
+            if fn == 'int' and isinstance(args[0], float) and (args[0] != args[0] or args[0] in (float('inf'), float('-inf'))):
+                raise Unsupported('int() of a non-finite value')
             return {'bool': bool, 'abs': abs}.get(fn, int)(args[0])
         if fn in ('np.isfinite', 'numpy.isfinite', 'math.isfinite', 'isfinite') and len(args) == 1:
             return _ew(lambda a, b: isinstance(a, (int, float)) and a == a and a not in (float('inf'), float('-inf')), args[0], 0)
@@ -680,6 +717,14 @@ class VecEval:
             if any(isinstance(a, float) and a != a for a in args):
                 raise Unsupported('scalar min/max with NaN operand (order dependent)')
             return (min if fn == 'min' else max)(args)
+        if fn in ('np.argsort', 'numpy.argsort') and args and isinstance(args[0], list):
+            return sorted(range(len(args[0])), key=lambda k: args[0][k])        # stable, like kind='stable'; ties are the caller's business
+        if fn in ('np.ceil', 'math.ceil', 'numpy.ceil') and len(args) == 1 and isinstance(args[0], (int, float)):
+            import math as _m
+            return float(_m.ceil(args[0])) if fn.startswith(('np.', 'numpy.')) else _m.ceil(args[0])
+        if fn in ('np.log2', 'math.log2', 'numpy.log2') and len(args) == 1 and isinstance(args[0], (int, float)):
+            import math as _m
+            return _m.log2(args[0]) if args[0] > 0 else float('-inf')
         if fn in ('np.arange', 'numpy.arange', 'range') and all(isinstance(a, int) for a in args):
             return list(range(*args))
         if fn in ('np.array_equal', 'numpy.array_equal') and len(args) == 2:
@@ -694,6 +739,7 @@ class VecEval:
         r = self.P.resolve_call(self.func, e)
         if r and r[0] == 'func' and not e.keywords and len(args) == len(r[1].params) and not isinstance(r[1].node, ast.Lambda):
             sub = VecEval(self.P, r[1], dict(zip(r[1].params, args)), self.n)
+            sub.scale_thresholds = getattr(self, 'scale_thresholds', False)
             try:
                 sub.block(r[1].node.body)
             except Returned as ret:
